@@ -99,6 +99,10 @@ func c19DynRule(i int, shape int, sel string) dynRule {
 		return dynRule{Verb: "POST", Tmpl: base, Body: "*", Selector: sel}
 	case 2:
 		return dynRule{Verb: "PATCH", Tmpl: base + "/{message_id}", Body: "*", Selector: sel}
+	case 4:
+		// same verb and path as the method's own annotation (c19Own) but without a body mapping: bound
+		// like every selected rule, it is what answers on that path
+		return dynRule{Verb: "POST", Tmpl: "/c19/own", Selector: sel}
 	default:
 		return dynRule{Verb: "GET", Tmpl: base, Selector: sel,
 			Additional: []dynRule{{Verb: "DELETE", Tmpl: base + "/{user_id}/del"}}}
@@ -117,6 +121,10 @@ func c19Requests(i int, shape int) []*http.Request {
 		return []*http.Request{r}
 	case 2:
 		r := httptest.NewRequest("PATCH", base+"/id9", strings.NewReader(`{"text":"patched"}`))
+		r.Header.Set("Content-Type", "application/json")
+		return []*http.Request{r}
+	case 4:
+		r := httptest.NewRequest("POST", "/c19/own?user_id=u4", strings.NewReader(`{"text":"posted4"}`))
 		r.Header.Set("Content-Type", "application/json")
 		return []*http.Request{r}
 	default:
@@ -252,27 +260,32 @@ func c19Mux(rules []c19Rule, methods []string, own bool) string {
 			panic(err)
 		}
 		cfg := c19Serve(files, rules, own, larking.ServiceConfigOption(sc))
-		// twin: the covered rules written as the method's annotation (after its own, if it has one)
+		// twin: the covered rules written as the method's annotation, in the order appendHandler binds
+		// them -- configuration rules first, then the method's own annotation (the order only matters
+		// when two of them share verb and path: the first one bound answers)
 		var ann *dynRule
 		key := "ann/" + meth
 		if own {
-			o := c19Own
-			ann = &o
 			key = "annown/" + meth
+		}
+		add := func(dr dynRule) {
+			if ann == nil {
+				ann = &dr
+				return
+			}
+			more := dr.Additional
+			dr.Additional = nil
+			ann.Additional = append(append(ann.Additional, dr), more...)
 		}
 		for i, r := range rules {
 			if !c19Covers(r.Sel, meth) {
 				continue
 			}
 			key += fmt.Sprintf("/%d.%d", i, r.Shape)
-			dr := c19DynRule(i, r.Shape, "")
-			if ann == nil {
-				ann = &dr
-			} else {
-				add := dr.Additional
-				dr.Additional = nil
-				ann.Additional = append(append(ann.Additional, dr), add...)
-			}
+			add(c19DynRule(i, r.Shape, ""))
+		}
+		if own {
+			add(c19Own)
 		}
 		tfiles, err := c19FilesFor(meth, ann, key)
 		if err != nil {
@@ -669,6 +682,10 @@ func c19Gen(o *out, r *rng, tier string) {
 	}
 	emitOwn(nil, "own-annotation")
 	for i, s := range universe {
+		// a selected rule on the verb and path of the method's own annotation
+		emitOwn([]c19Rule{{s, 4}}, "own-annotation-clash")
+		emitOwn([]c19Rule{{universe[(i*5+1)%len(universe)], i % 4}, {s, 4}}, "own-annotation-clash")
+		emitM([]c19Rule{{s, 4}}, "size1/"+class(s))
 		emitOwn([]c19Rule{{s, i % 4}}, "own-annotation")
 		emitOwn([]c19Rule{{s, (i + 1) % 4}, {universe[(i*7+3)%len(universe)], (i + 2) % 4}}, "own-annotation")
 	}
